@@ -134,7 +134,7 @@ func checkC02(c *hx.Ctx) {
 				orders = append(orders, r.Perm(nPub))
 			}
 		}
-		pc := hx.NewClient(hx.NewVersion(p, hx.VersionOpts{}))
+		pc := hx.NewClient(hx.NewVersion(p, hx.VersionOpts{ParserOpts: hx.StrictResolution()}))
 		st, merr := ref.Resolve(ops, ref.ResolveOpts{})
 		want := stKey(st, merr)
 		var first, firstMD string
